@@ -133,7 +133,12 @@ inline std::string proj(SoPlex& s, bool allowInternal = false)
       o.raw("q", projRational(s));
       o.raw("rowTypes", jarr(Probe::nRowTypes(s), [&](int i) { return std::to_string(Probe::rowType(s, i)); }));
       o.raw("colTypes", jarr(Probe::nColTypes(s), [&](int i) { return std::to_string(Probe::colType(s, i)); }));
-      o.b("inSync", sync == SoPlex::SYNCMODE_AUTO ? s.areLPsInSync(true, true, true) : true);
+      // (areLPsInSync() converts every floating-point number to a rational: GMP raises SIGFPE on an IEEE infinity, which a
+      //  reader can leave behind for a number with thousands of digits; not called then)
+      bool finite = true; const SPxLPBase<double>& rl = Probe::realLP(s);
+      for(int j = 0; j < rl.nCols() && finite; j++) { finite = std::isfinite(rl.lower(j)) && std::isfinite(rl.upper(j)) && std::isfinite(rl.obj(j)); const SVectorBase<double>& cv = rl.colVector(j); for(int k = 0; k < cv.size(); k++) finite = finite && std::isfinite(cv.value(k)); }
+      for(int i = 0; i < rl.nRows() && finite; i++) finite = std::isfinite(rl.lhs(i)) && std::isfinite(rl.rhs(i));
+      o.b("inSync", (sync == SoPlex::SYNCMODE_AUTO && finite) ? s.areLPsInSync(true, true, true) : true);
    }
    else o.raw("q", emptyQ()).raw("rowTypes", "[]").raw("colTypes", "[]").b("inSync", true);
    return o.str();
